@@ -5044,7 +5044,7 @@ EmitOp_Rd0_Rn5_Rm16_Ra10:
   goto EmitOp;
 
 EmitOp_Rd0_Rn5_Rm16:
-  if (!check_valid_regs(o0, o1, o3))
+  if (!check_valid_regs(o0, o1, o2))
     goto InvalidPhysId;
 
   opcode.add_reg(o0, 0);
